@@ -518,11 +518,19 @@ class Executor(object):
             return ''
 
     def model_for(s, st):
-        if st.model is not None:
-            return st.model
-        ok, m = s.solver.check(st.pc)
-        if not ok:
-            return None
+        """a model of the path condition, complete over the variables the path condition mentions (a cached model may
+        leave out a variable whose value 0 - the engine's convention for a missing variable - satisfies the constraints
+        added after it was cached; only variables the path condition never mentions are unconstrained)"""
+        m = st.model
+        if m is None:
+            ok, m = s.solver.check(st.pc)
+            if not ok:
+                return None
+        m = dict(m)
+        for c in st.pc:
+            if type(c) is E:
+                for v in X.free_vars(c):
+                    m.setdefault(v.a[0], 0)
         st.model = m
         return m
 
